@@ -76,7 +76,13 @@ def run_suite(ctx, name, worlds, env=None, known=None, use_model=True, chunk=400
             if kid:
                 ctx.known_hits[kid] = ctx.known_hits.get(kid, 0) + 1
                 continue
-            if (id(w), p['kind']) in seen_worlds or len(ctx.violations) >= 5:
+            # at most 5 failing inputs per run, and at most 2 correspondence disagreements per suite (a disagreement
+            # in one suite must not use up the room for the failing inputs a later suite finds)
+            if (id(w), p['kind']) in seen_worlds:
+                continue
+            if p['kind'] == 'corr' and sum(1 for v in ctx.violations if v[0] == 'corr ' + name) >= 2:
+                continue
+            if p['kind'] != 'corr' and sum(1 for v in ctx.violations if v[2]) >= 5:
                 continue
             seen_worlds.add((id(w), p['kind']))
             ops, best = core.shrink(ctx, p, env)
